@@ -182,7 +182,7 @@ def run_program(base, tag, module_src, steps, root=None):
     d = os.path.join(base, tag); os.makedirs(d, exist_ok=True)
     prog = {"root": root or os.path.join(base, "cache"), "moddir": os.path.join(base, "mod"), "module_src": module_src, "steps": steps}
     pf = os.path.join(d, "prog.json"); json.dump(prog, open(pf, "w"))
-    env = dict(os.environ, PYTHONPATH="/repo", PYTHONHASHSEED=str(len(tag) % 7), PYTHONDONTWRITEBYTECODE="1")
+    env = dict(os.environ, PYTHONPATH=os.environ.get("VERIF_REPO", "/repo"), PYTHONHASHSEED=str(len(tag) % 7), PYTHONDONTWRITEBYTECODE="1")
     p = subprocess.run([PY, WORKER, pf], env=env, capture_output=True, text=True, timeout=1800)
     lines = [json.loads(l) for l in p.stdout.splitlines() if l.startswith("{")]
     if len(lines) != len(steps):
